@@ -26,8 +26,20 @@
 //! * ligature substitution keeps skipped marks after the ligature glyph and tags them with
 //!   the component they followed; mark-to-ligature uses that component.
 //!
-//! Known, deliberate simplifications are listed in the crate README section of the final
-//! report and at the items concerned (`shape`, `apply_lookup`).
+//! Deliberate deviations from HarfBuzz (all outside what the spec fixes):
+//!
+//! * no Unicode knowledge: glyph classes come from GDEF only (class 0 without GDEF), there
+//!   are no default-ignorables, no script-specific shapers, no feature "pauses" — lookups
+//!   of *all* selected features are merged into one ascending list;
+//! * HarfBuzz refuses to ligate / context-match across marks that belong to different
+//!   components of an earlier ligature; this engine matches purely by the skip filter;
+//! * a mark after the output of a multiple substitution attaches to the nearest preceding
+//!   non-mark glyph (HarfBuzz walks back to the first glyph of the sequence);
+//! * cursive attachment (GPOS 3) uses default-location hmtx advances and does not re-link
+//!   previously attached chains;
+//! * mark offsets are reported relative to the glyph attached to (anchors coincide), not
+//!   converted into pen-relative offsets; hinting Device tables and anchor contour points
+//!   are ignored; values are never rounded.
 //!
 //! The engine always terminates: nested lookups are depth-limited ([`MAX_NESTING`]), every
 //! subtable application is charged against an operation budget ([`MAX_OPS`]) and the glyph
@@ -196,6 +208,10 @@ pub struct ShapeRequest {
     pub coords: Vec<f64>,
     pub gsub: bool,
     pub gpos: bool,
+    /// Which alternate GSUB type 3 lookups pick (0 = first). A set with fewer alternates
+    /// leaves the glyph unchanged.
+    #[serde(default)]
+    pub alternate_index: usize,
 }
 
 impl ShapeRequest {
@@ -208,6 +224,7 @@ impl ShapeRequest {
             coords: Vec::new(),
             gsub: true,
             gpos: true,
+            alternate_index: 0,
         }
     }
 }
@@ -678,7 +695,13 @@ impl<'a> LFont<'a> {
             }
             for lookup_index in self.collect_lookups(table, req) {
                 result.lookups_selected.push((table, lookup_index));
-                let report = self.apply_lookup(table, lookup_index, &mut buffer, &req.coords);
+                let report = self.apply_lookup_with(
+                    table,
+                    lookup_index,
+                    &mut buffer,
+                    &req.coords,
+                    req.alternate_index,
+                );
                 if report.applied {
                     result.lookups_applied.push((table, lookup_index));
                 }
@@ -698,7 +721,21 @@ impl<'a> LFont<'a> {
         buffer: &mut Buffer,
         coords: &[f64],
     ) -> ApplyReport {
+        self.apply_lookup_with(table, lookup_index, buffer, coords, 0)
+    }
+
+    /// As [`LFont::apply_lookup`], choosing alternate number `alternate_index` (0 = first)
+    /// in GSUB type 3 lookups.
+    pub fn apply_lookup_with(
+        &self,
+        table: Table,
+        lookup_index: u16,
+        buffer: &mut Buffer,
+        coords: &[f64],
+        alternate_index: usize,
+    ) -> ApplyReport {
         let mut applier = apply::Applier::new(self, table, coords);
+        applier.alternate_index = alternate_index;
         let applied = applier.apply_whole(lookup_index, buffer);
         ApplyReport {
             applied,
@@ -730,6 +767,7 @@ impl<'a> LFont<'a> {
             coords: coords.to_vec(),
             gsub: false,
             gpos: true,
+            alternate_index: 0,
         };
         let r = self.shape(&req, &[g1, g2]);
         r.glyphs[0].x_advance_adj + r.glyphs[1].x_offset
